@@ -25,6 +25,7 @@ type ctx struct {
 
 	pendBuf  []pendBuf
 	pendHist []pendHist
+	burst    bool
 }
 
 // guarded runs fn under recover and a deadline: a panic or hang of the real code is an outcome.
@@ -89,6 +90,7 @@ func main() {
 	c.bufferedRandom(400 * mult)
 	c.ringRandom(300 * mult)
 	c.histories(quick, mult)
+	c.forcedGetOrCreate()
 	c.checkerControls()
 	res.Exhaustive = false
 	res.Write(f.Out)
